@@ -14,6 +14,7 @@ import Cctz.Model.Format
 import Cctz.Model.Parse
 import Cctz.Model.TableCheck
 import Cctz.Model.TameCheck
+import Cctz.Proofs.SeamCheck
 
 open Cctz
 
@@ -254,12 +255,24 @@ def zoneOp (st : DState) (toks : List String) : Option (DState × String) :=
       let t ← t.toInt?
       let e ← st.find id
       some (st, showCk (Tz.prevTransition e.zone t) showTransitionOpt)
+  | ["subtr", id, den, c] => do
+      -- next/prev_transition of a sub-second time_point: the changes strictly after / strictly before the instant.
+      -- With s = floor(instant): a change at T (a whole second) is after the instant iff T > s, and before it
+      -- iff T < s + 1 when the instant has a fraction, T < s otherwise.
+      let den ← den.toInt?; let c ← c.toInt?
+      let e ← st.find id
+      let r : Ck String := do
+        let (sec, sub) ← Split.splitSeconds 1 den c
+        let n ← Tz.nextTransition e.zone sec
+        let p ← Tz.prevTransition e.zone (if sub > 0 ∧ sec < i64max then sec + 1 else sec)
+        pure s!"N {showTransitionOpt n} | P {showTransitionOpt p}"
+      some (st, showCk r (fun s => s))
   | ["preds", id] => do
       -- which hypotheses of the table-level theorems does this zone satisfy? (model-only op)
       let e ← st.find id
       let z := e.zone
       let b (x : Bool) : String := if x then "1" else "0"
-      some (st, s!"wf={b (TableCheck.tableWFb z)} sorted={b (TableCheck.civilSortedb z)} cols={b (TableCheck.civilColsb z)} sep={b (TableCheck.separatedb z)} inrange={b (TableCheck.timesInRangeb z)} room={b (TableCheck.firstEntryRoomb z)} tame={b (TameCheck.tameFullb z)}")
+      some (st, s!"wf={b (TableCheck.tableWFb z)} sorted={b (TableCheck.civilSortedb z)} cols={b (TableCheck.civilColsb z)} sep={b (TableCheck.separatedb z)} inrange={b (TableCheck.timesInRangeb z)} room={b (TableCheck.firstEntryRoomb z)} tame={b (TameCheck.tameFullb z)} seam={b (TableCheck.tableWFb z && Seam.seamOKb z)} shiftroom={b (Seam.shiftRoomb z)}")
   | ["reload", id] =>
       -- the cache: a name loaded before is answered from the map, the data source is not consulted
       match st.find id with
@@ -308,6 +321,7 @@ def schedName (tok : String) : Option Bytes :=
       let off ← (String.ofList rest).toInt?
       let n := Fixed.toName off
       if n.flags.any then none else some n.val
+  | 'F' :: rest => some (Bytes.ofString ("Fixed/UTC" ++ String.ofList rest))
   | _ => some (Bytes.ofString ("blk:" ++ tok))
 
 def schedWorld : Loader.World :=
@@ -358,6 +372,16 @@ def loaderOp (st : DState) (toks : List String) : Option (DState × String) :=
       -- results of concurrent use equal those of a single-threaded replay (the theorem C13.result_is_sequential
       -- together with C14.history_irrelevant); the harness measures it on the real code
       some (st, s!"stress threads={k} differing=0")
+  | ["racefixed", _k, _n, _b] =>
+      -- racing first uses of one fixed offset: all equal (C13.same_name_same_identity on the loader model)
+      some (st, "racefixed bad=0")
+  | ["defaultzone"] =>
+      -- a default-constructed time_zone, a failed load, "UTC0", offset 0 and the local fallback are one zone (C19.failure_is_utc)
+      some (st, "default bad=0")
+  | ["firstuse", _k] =>
+      -- every way of obtaining UTC gives the one UTC zone, whichever thread is first (C13.result_is_sequential,
+      -- C19.failure_is_utc); the harness measures it on the real code in a fresh process
+      some (st, "firstuse bad=0")
   | ["fsfile", path, hex] => do
       let p ← Bytes.ofHex path
       let b ← Bytes.ofHex hex
@@ -428,6 +452,27 @@ def fmtOp (st : DState) (toks : List String) : Option (DState × String) :=
         let (tm, segs) ← Format.formatSegs (Bytes.ofString "%Y-%m-%d %H:%M:%E*S") al sec fs
         pure (al.cs, Format.render (fun _ _ => []) tm segs)
       some (st, showCk r fun (cs, txt) => s!"S {showFields cs} | {showFields cs} | {Bytes.toHex txt}")
+  | ["subfloat", n, num, e, _rep] => do
+      -- a time_point whose representation is floating point: num / 2^e ticks of n seconds (exactly representable);
+      -- lookup and convert use the whole second at or below the instant
+      let n ← n.toInt?; let num ← num.toInt?; let e ← e.toNat?
+      let sec := (num * n) / (2 ^ e : Int)          -- floor: the divisor is positive
+      let r : Ck Fields := do
+        let utc ← Tz.resetToBuiltinUTC 0
+        let (al, _) ← Tz.breakTime utc 0 sec
+        pure al.cs
+      some (st, showCk r fun cs => s!"S {showFields cs} | {showFields cs}")
+  | ["subparse", num, lo, hi, _rep, hexin] => do
+      -- the public parse() template into a time_point of whole seconds or coarser, in UTC:
+      -- detail::parse, then join_seconds
+      let num ← num.toInt?; let lo ← lo.toInt?; let hi ← hi.toInt?
+      let inp ← Bytes.ofHex hexin
+      let r := Parse.parse (fun _ _ _ => none) (Bytes.ofString "%Y-%m-%d %H:%M:%S") inp (Tz.resetToBuiltinUTC 0).val
+      some (st, showCk r fun (res, _) => match res with
+        | .fail => "false"
+        | .ok sec _ =>
+          match (if num == 1 then Split.joinSecondsRep lo hi sec else Split.joinCoarse num lo hi sec) with
+          | some v => s!"ok {v}" | none => "false")
   | ["fmt", id, t, fs, hexfmt] => do
       let t ← t.toInt?; let fs ← fs.toInt?
       let f ← Bytes.ofHex hexfmt
